@@ -1612,6 +1612,11 @@ class Field(SupportComplexDataType):
                 if subcomponent is not None or component != 1:
                     raise ChildNotFound(name)
                 component_name = self.datatype
+            elif self.datatype in (None, 'varies'):
+                # no table of components: they are addressed by position only
+                if subcomponent is not None or component < 1:
+                    raise ChildNotFound(name)
+                component_name = 'VARIES_{0}'.format(component)
             else:
                 component_name = '{0}_{1}'.format(self.datatype, component)
             if subcomponent is None:
